@@ -81,7 +81,7 @@ const netHTTPMws = `func mws(t *labrt.Trace, o labrt.Options) []MiddlewareFunc {
 		i := i
 		out = append(out, func(next http.Handler) http.Handler {
 			return http.HandlerFunc(func(w http.ResponseWriter, r *http.Request) {
-				t.Add("mw", fmt.Sprint(i), nil)
+				t.Add("mw", fmt.Sprint(i), map[string]any{"$scopes": labMwScopes(r)})
 				if i == o.ShortCircuit {
 					w.WriteHeader(299)
 					return
@@ -180,7 +180,7 @@ var fwTable = map[string]fwInfo{
 	for i := 0; i < o.Middlewares; i++ {
 		i := i
 		out = append(out, func(c *gin.Context) {
-			t.Add("mw", fmt.Sprint(i), nil)
+			t.Add("mw", fmt.Sprint(i), map[string]any{"$scopes": labMwScopes(c)})
 			if i == o.ShortCircuit {
 				c.AbortWithStatus(299)
 			}
@@ -305,6 +305,18 @@ func genStub(pkg LabPkg, code string) (string, error) {
 		}
 	}
 	si := findInterface(p, "ServerInterface")
+	if pkg.FW == "chi" || pkg.FW == "gorilla" || pkg.FW == "stdhttp" || pkg.FW == "gin" {
+		// what a per-operation middleware finds in the request context under the generated scope keys
+		arg := "r *http.Request"
+		if pkg.FW == "gin" {
+			arg = "c *gin.Context"
+		}
+		fmt.Fprintf(&sb, "func labMwScopes(%s) map[string]any {\n\tscopes := map[string]any{}\n", arg)
+		for _, c := range scopeConsts {
+			fmt.Fprintf(&sb, "\tif v := %s; v != nil {\n\t\tscopes[%q] = v\n\t}\n", fmt.Sprintf(fw.scope, c), c)
+		}
+		sb.WriteString("\treturn scopes\n}\n\n")
+	}
 	if pkg.FW != "" && si != nil {
 		// ---- non-strict stub (also the innermost layer under the strict handler's wrapper)
 		sb.WriteString("type Stub struct{ T *labrt.Trace }\n\n")
